@@ -465,7 +465,7 @@ class StmtMixin:
                     self.stats["vacuous_loop_bodies"].append(name)
                     continue
                 v0 = None
-                if spec.decreases is not None:
+                if spec.decreases is not None and not getattr(self, "partial", False):
                     (s_, v0) = self.ev1(self.parse(spec.decreases), en, sg)
                 for (e2, s2, sig, v) in self.exec_block(stmt.body, en, sg):
                     if sig in ("fall", "continue") and self.guard_concretely_false(
